@@ -123,86 +123,213 @@ def r2_promotion(R) -> None:
             'Type order VARIABLE < EXOGENOUS < ENDOGENOUS (promotion by max)', f'Type values are {types}: promotion by max() would not prefer ENDOGENOUS')
     outside = [k for k in ('PARAMETER', 'ERROR', 'FUNCTION', 'KEYWORD', 'VERBATIM', 'INVALID') if k not in types]
     R.check(not outside and len(set(types.values())) == len(types), f'{P}.Type', 'enum-members', 'Type members are distinct', f'Type is missing {outside} or has duplicate values')
-    defs = [n for n in f.assigns_to('combined_type') if is_call(n.ast.value, 'max')]
-    if not R.require(q, len(defs), 'combined_type = max(self.type, other.type)', fi=f.fi, pred=lambda x: is_call(x, 'max', 'min')):
+    # the combined type is what the returned Symbol receives as `type=`
+    from fsa.match import nnf_atoms
+    ret = [r for r in f.returns() if is_call(r.ast.value, 'Symbol') or method_call(r.ast.value, '_replace')]
+    if not ret:
+        raise Unsupported(f'{q}: no `return Symbol(...)`')
+    tkw = kwarg(ret[0].ast.value, 'type')
+    if not isinstance(tkw, ast.Name):
+        raise Unsupported(f'{q}: the combined type `{text(tkw) if tkw is not None else "?"}` is not a local name')
+    ct = tkw.id
+    vds = f.vdefs(ct)
+    defs = [d for d in vds if is_call(d.value, 'max', 'min')]
+    if not defs:
+        if any(is_call(x, 'max') for x in ast.walk(f.fi.node)):
+            raise Unsupported(f'{q}: promotion by max() not bound to `{ct}` directly')
+        R.require(q, 0, 'combined_type = max(self.type, other.type)', fi=f.fi, pred=lambda x: is_call(x, 'max', 'min'))
         return
-    n = defs[0]
-    args = sorted(text(a) for a in n.ast.value.args)
-    R.check(args == ['other.type', 'self.type'], q, 'promotion-max:' + text(n.ast.value), 'promotion = max of the two types',
-            f'`{text(n.ast)}` is not max(self.type, other.type)', where=f.where(n))
+    d = defs[0]
+    n = d.node
+    args = sorted(text(a) for a in d.value.args)
+    R.check(args == ['other.type', 'self.type'] and is_call(d.value, 'max'), q, 'promotion-max:' + text(d.value), 'promotion = max of the two types',
+            f'`{ct} = {text(d.value)}` is not max(self.type, other.type)', where=f.where(n))
+    others = [x for x in vds if x is not d]
+    R.check(all(text(x.value) in ('self.type', 'other.type') for x in others), q, 'promotion-else:' + ';'.join(text(x.value) for x in others)[:60],
+            'without promotion the type is the common type', f'`{ct}` is also bound to {[text(x.value)[:30] for x in others]}', where=f.where(n))
     # guarded: both operands in VARLIKE, else SymbolError
     rs = f.raises('SymbolError')
     if not R.require(q, len(rs), 'raise SymbolError for incompatible types', fi=f.fi, pred=lambda x: isinstance(x, ast.Raise)):
         return
-    r = rs[0]
-    tests = [t for (a, truth, t) in f.guard_atoms(r.id) if truth and 'not in' in text(a)]
-    cond = None
-    for (tid, lab) in f.guards_of(r.id):
-        tn = f.cfg.nodes[tid]
-        if tn.kind == 'test' and lab == 'T' and 'not in' in text(tn.ast):
-            cond = tn
-    if cond is None:
-        raise Unsupported(f'{q}: guard of SymbolError not recognised')
-    parts = cond.ast.values if isinstance(cond.ast, ast.BoolOp) and isinstance(cond.ast.op, ast.Or) else [cond.ast]
-    seen: Dict[str, set] = {}
-    for p_ in parts:
-        if isinstance(p_, ast.Compare) and isinstance(p_.ops[0], ast.NotIn) and isinstance(p_.comparators[0], (ast.Tuple, ast.List, ast.Set)):
-            seen[text(p_.left)] = {text(e).split('.')[-1] for e in p_.comparators[0].elts}
+    facts = list(f.xguard_atoms(n.id)) + [t_ for t_ in d.facts if t_ not in f.guard_atoms(n.id)]
+    allowed: Dict[str, set] = {}
+    differ = False
+    for (a_, tr, *_r) in facts:
+        if isinstance(a_, ast.Compare) and len(a_.ops) == 1 and isinstance(a_.ops[0], ast.In) and tr and isinstance(a_.comparators[0], (ast.Tuple, ast.List, ast.Set)) \
+                and text(a_.left) in ('self.type', 'other.type'):
+            allowed[text(a_.left)] = {text(e).split('.')[-1] for e in a_.comparators[0].elts}
+        if isinstance(a_, ast.Compare) and len(a_.ops) == 1 and isinstance(a_.ops[0], ast.Eq) and not tr and {text(a_.left), text(a_.comparators[0])} == {'self.type', 'other.type'}:
+            differ = True
     for side in ('self.type', 'other.type'):
-        R.check(seen.get(side) == VARLIKE, q, f'promotion-guard:{side}:{sorted(seen.get(side, []))}',
+        R.check(allowed.get(side) == VARLIKE, q, f'promotion-guard:{side}:{sorted(allowed.get(side, []))}',
                 f'{side} must be one of VARIABLE/EXOGENOUS/ENDOGENOUS for promotion',
-                f'SymbolError guard restricts {side} to {sorted(seen.get(side, [])) or "<nothing>"}: a name used both as variable and as parameter/error would be merged',
-                where=f.where(cond))
-    R.check((cond.id, 'F') in f.guards_of(n.id), q, 'promotion-after-guard', 'promotion happens only after the compatibility check',
-            'max() promotion can be reached without passing the SymbolError guard', where=f.where(n))
-    # only when types differ
-    diff = [t for (tid, lab) in f.guards_of(n.id) for t in [f.cfg.nodes[tid]] if lab == 'T' and text(t.ast) in ('self.type != other.type', 'other.type != self.type')]
-    R.check(bool(diff), q, 'promotion-when-different', 'promotion applies when the two types differ', 'promotion is not guarded by `self.type != other.type`', where=f.where(n))
+                f'promotion by max() is reached with {side} restricted to {sorted(allowed.get(side, [])) or "<nothing>"}: a name used both as variable and as parameter/error '
+                f'would be merged', where=f.where(n))
+    # and the complementary situation raises SymbolError
+    okr = False
+    for r in rs:
+        ra = [(text(a_), tr) for (a_, tr, _t) in f.xguard_atoms(r.id)]
+        if any('self.type' in a_ and 'other.type' in a_ and ' or ' in a_ for (a_, tr) in ra) or \
+                any(tr is False and ' in (' in a_ and ('self.type' in a_ or 'other.type' in a_) for (a_, tr) in ra):
+            okr = True
+    R.check(okr, q, 'promotion-rejects', 'an incompatible pair raises SymbolError', 'the SymbolError is not raised for a type outside VARIABLE/EXOGENOUS/ENDOGENOUS', where=f.where(rs[0]))
+    R.check(all(not f.cfg.reaches(n.id, r.id) for r in rs) and any(f.cfg.reaches(tn.id, n.id) for r in rs for (_a, _t, tn) in f.guard_atoms(r.id)), q, 'promotion-after-guard',
+            'promotion happens only after the compatibility check', 'max() promotion can be reached without passing the SymbolError guard', where=f.where(n))
+    R.check(differ, q, 'promotion-when-different', 'promotion applies when the two types differ', 'promotion is not guarded by `self.type != other.type`', where=f.where(n))
+
+
+class _NoFold(Exception):
+    pass
+
+
+_TYPES = {'int': int, 'str': str, 'float': float, 'bool': bool, 'NoneType': type(None), 'object': object}
+
+
+def _fold_types(e: ast.AST, env: Dict[str, object]):
+    """Constant folding of a row test over the finite domain of operand types: `env` maps the two operand names to
+    sample values (None, 0, ''), so `type(this)`, `isinstance(that, str)`, `this is None`, tuples, sets, subscripts with
+    constant index, ==, !=, is, is not, in, not in, <= on sets, not/and/or fold to a constant.  Anything else: _NoFold."""
+    if isinstance(e, ast.Constant):
+        return e.value
+    if isinstance(e, ast.Name):
+        if e.id in env:
+            return env[e.id]
+        if e.id in _TYPES:
+            return _TYPES[e.id]
+        raise _NoFold(e.id)
+    if isinstance(e, (ast.Tuple, ast.List)):
+        return tuple(_fold_types(x, env) for x in e.elts)
+    if isinstance(e, ast.Set):
+        return frozenset(_fold_types(x, env) for x in e.elts)
+    if isinstance(e, ast.Call) and isinstance(e.func, ast.Name) and not e.keywords:
+        args = [_fold_types(x, env) for x in e.args]
+        if e.func.id == 'type' and len(args) == 1:
+            return type(args[0])
+        if e.func.id == 'isinstance' and len(args) == 2:
+            return isinstance(args[0], args[1])
+        if e.func.id in ('set', 'frozenset') and len(args) == 1:
+            return frozenset(args[0])
+        if e.func.id == 'tuple' and len(args) == 1:
+            return tuple(args[0])
+        if e.func.id == 'all' and len(args) == 1:
+            return all(args[0])
+        if e.func.id == 'any' and len(args) == 1:
+            return any(args[0])
+        raise _NoFold(e.func.id)
+    if isinstance(e, ast.Subscript) and isinstance(e.slice, ast.Constant) and isinstance(e.slice.value, int):
+        return _fold_types(e.value, env)[e.slice.value]
+    if isinstance(e, ast.UnaryOp) and isinstance(e.op, ast.Not):
+        return not _fold_types(e.operand, env)
+    if isinstance(e, ast.BoolOp):
+        vals = [_fold_types(v, env) for v in e.values]
+        return all(vals) if isinstance(e.op, ast.And) else any(vals)
+    if isinstance(e, ast.Compare):
+        left = _fold_types(e.left, env)
+        for op, c in zip(e.ops, e.comparators):
+            right = _fold_types(c, env)
+            if isinstance(op, ast.Eq):
+                r = left == right
+            elif isinstance(op, ast.NotEq):
+                r = left != right
+            elif isinstance(op, ast.Is):
+                r = left is right
+            elif isinstance(op, ast.IsNot):
+                r = left is not right
+            elif isinstance(op, ast.In):
+                r = left in right
+            elif isinstance(op, ast.NotIn):
+                r = left not in right
+            elif isinstance(op, ast.LtE) and isinstance(left, frozenset) and isinstance(right, frozenset):
+                r = left <= right
+            elif isinstance(op, ast.GtE) and isinstance(left, frozenset) and isinstance(right, frozenset):
+                r = left >= right
+            else:
+                raise _NoFold(type(op).__name__)
+            if not r:
+                return False
+            left = right
+        return True
+    if isinstance(e, ast.Attribute) and isinstance(e.value, ast.Name) and e.value.id == 'types' and e.attr == 'NoneType':
+        return type(None)
+    raise _NoFold(type(e).__name__)
 
 
 def r3_lag_lead_table(R) -> None:
+    from fsa.gated import SymExec, canon
     q = f'{P}.Symbol.combine'
     f = Fn(R, q)
-    uses = {}
-    for n in f.cfg.nodes:
-        a = n.ast
-        if n.kind == 'stmt' and isinstance(a, ast.Assign) and is_call(a.value, 'resolve_by_type_pair') and len(a.targets) == 1:
-            uses[text(a.targets[0])] = (n, a.value)
+    ret = [r for r in f.returns() if is_call(r.ast.value, 'Symbol') or method_call(r.ast.value, '_replace')]
+    if not ret:
+        raise Unsupported(f'{q}: no `return Symbol(...)`')
+    se = SymExec(f.fi.node)
+    helper = None
     for nm, fn, attr in (('lags', 'min', 'lags'), ('leads', 'max', 'leads')):
-        if nm not in uses:
-            R.require(q, 0, f'{nm} = resolve_by_type_pair(self.{attr}, other.{attr}, {fn})', fi=f.fi, pred=lambda x: is_call(x, 'resolve_by_type_pair'))
+        kw = kwarg(ret[0].ast.value, nm)
+        if kw is None:
+            R.violation(q, f'combine:{nm}:missing', f'the combined symbol is built without `{nm}=`', where=f.where(ret[0]))
             continue
-        n, c = uses[nm]
-        ok = len(c.args) == 3 and text(c.args[0]) == f'self.{attr}' and text(c.args[1]) == f'other.{attr}' and text(c.args[2]) == fn
+        c = se.value(ret[0].ast, kw)
+        if not (isinstance(c, ast.Call) and isinstance(c.func, ast.Name) and len(c.args) == 3):
+            if text(c) in (f'self.{attr}', f'other.{attr}'):
+                R.violation(q, f'combine:{nm}:{text(c)}', f'`{nm}` of the combined symbol is just `{text(c)}`: the other mention is ignored', where=f.where(ret[0]))
+                continue
+            raise Unsupported(f'{q}: `{nm}` of the combined symbol is `{text(c)[:70]}`')
+        helper = helper or c.func.id
+        ok = c.func.id == helper and text(c.args[0]) == f'self.{attr}' and text(c.args[1]) == f'other.{attr}' and text(c.args[2]) == fn and not c.keywords
         R.check(ok, q, f'combine:{nm}:{text(c)}', f'{nm} combined with {fn}() over self.{attr}, other.{attr}',
-                f'`{nm} = {text(c)}`: expected resolve_by_type_pair(self.{attr}, other.{attr}, {fn})', where=f.where(n))
-    g = Fn(R, q + '.<locals>.resolve_by_type_pair')
-    rows: Dict[str, str] = {}
-    for n in g.assigns_to('outcome'):
-        key = None
-        for (a, truth, tn) in g.guard_atoms(n.id):
-            if truth and isinstance(a, ast.Compare) and text(a.left) == 'types':
-                key = text(a.comparators[0])
-        if key is not None:
-            rows[key] = text(n.ast.value)
+                f'`{nm} = {text(c)}`: expected {helper}(self.{attr}, other.{attr}, {fn})', where=f.where(ret[0]))
+    if helper is None:
+        return
+    g = Fn(R, q + '.<locals>.' + helper)
+    ps = g.fi.params()
+    if len(ps) != 3:
+        raise Unsupported(f'{g.q}: expected (this, that, function)')
+    this, that, fun = ps
+    gs = SymExec(g.fi.node, keep_raise=True)
+    grets = g.returns()
+    if len(grets) != 1 or grets[0].ast.value is None:
+        raise Unsupported(f'{g.q}: expected one return')
+    v = canon(gs.value(grets[0].ast, grets[0].ast.value))
+    # the table is decided by folding each row test for every pair of operand types (finite domain)
+    samples = {'type(None)': None, 'int': 0, 'str': ''}
+    rows: Dict[tuple, str] = {}
+    # a dispatch table {(type, type): lambda: result} indexed by the pair of operand types
+    if isinstance(v, ast.Call) and not v.args and not v.keywords and isinstance(v.func, ast.Subscript) and isinstance(v.func.value, ast.Dict) \
+            and all(k is not None and isinstance(val, ast.Lambda) and not val.args.args for k, val in zip(v.func.value.keys, v.func.value.values)):
+        try:
+            table = {_fold_types(k, {}): text(val.body) for k, val in zip(v.func.value.keys, v.func.value.values)}
+            for ka, va in samples.items():
+                for kb, vb in samples.items():
+                    rows[(ka, kb)] = table.get(_fold_types(v.func.slice, {this: va, that: vb}), '<raise>')
+        except (_NoFold, TypeError, IndexError, KeyError) as e_:
+            raise Unsupported(f'{g.q}: dispatch table `{text(v)[:70]}` cannot be folded over the operand types ({e_})')
+        v = ast.Constant(value=None)  # rows are complete
+    for ka, va in ([] if rows else samples.items()):
+        for kb, vb in samples.items():
+            cur = v
+            try:
+                while isinstance(cur, ast.IfExp):
+                    cur = cur.body if _fold_types(cur.test, {this: va, that: vb}) else cur.orelse
+            except (_NoFold, TypeError, IndexError, KeyError) as e_:
+                raise Unsupported(f'{g.q}: row test `{text(cur.test)[:70]}` cannot be folded over the operand types ({e_})')
+            rows[(ka, kb)] = text(cur)
+    if len(set(rows.values())) <= 1:
+        raise Unsupported(f'{g.q}: the result `{text(v)[:80]}` is not a table of rows over the types of the two operands')
     want = {
-        '(type(None), type(None))': 'None',
-        '(int, int)': 'function(this, that, 0)',
-        '(str, str)': '0',
-        '(int, str)': 'this',
-        '(str, int)': 'that',
+        ('type(None)', 'type(None)'): ['None'],
+        ('int', 'int'): [f'{fun}({this}, {that}, 0)', f'{fun}(0, {this}, {that})', f'{fun}({this}, 0, {that})', f'{fun}({that}, {this}, 0)'],
+        ('str', 'str'): ['0'],
+        ('int', 'str'): [this],
+        ('str', 'int'): [that],
     }
-    tdef = [n for n in g.assigns_to('types')]
-    R.check(len(tdef) == 1 and text(tdef[0].ast.value) == '(type(this), type(that))', g.q, 'types-def', 'rows are keyed by (type(this), type(that))',
-            'types is not (type(this), type(that))', where=g.fi.where)
-    for k, v in want.items():
+    for k, vs in want.items():
         got = rows.get(k)
-        if got is None:
-            R.violation(g.q, f'row-missing:{k}', f'no row for {k} in resolve_by_type_pair', where=g.fi.where)
+        shown = f'({k[0]}, {k[1]})'
+        if got is None or got == '<raise>':
+            R.violation(g.q, f'row-missing:{shown}', f'no row for {shown} in {helper}', where=g.fi.where)
         else:
-            okv = got == v or (k == '(int, int)' and got in ('function(this, that, 0)', 'function(0, this, that)', 'function(this, 0, that)'))
-            R.check(okv, g.q, f'row:{k}:{got}', f'{k} -> {v}',
-                    f'row {k} yields `{got}`, expected `{v}`' + (' (the implicit 0 keeps a lead-only variable from producing a negative lag length)' if k == '(int, int)' else ''),
+            R.check(got in vs, g.q, f'row:{shown}:{got}', f'{shown} -> {vs[0]}',
+                    f'row {shown} yields `{got}`, expected `{vs[0]}`' + (' (the implicit 0 keeps a lead-only variable from producing a negative lag length)' if k == ('int', 'int') else ''),
                     where=g.fi.where)
 
 
@@ -327,7 +454,8 @@ def _check_lag_spec(R, q, nm, agg, floor, v, sym_param, where) -> None:
     ng = nis.generators[0]
     conds = [(a_, tr) for c_ in ng.ifs for (a_, tr) in nnf_atoms(c_, True)]
     # which Type members pass the filter: evaluate the membership atoms for each member of the enumeration
-    members = set(fold_enum(R.repo, P, 'Type'))
+    enum_vals = fold_enum(R.repo, P, 'Type')
+    members = set(enum_vals)
     tvt = f'{text(ng.target)}.type'
     included = set(members)
     for (a_, tr) in conds:
@@ -338,6 +466,12 @@ def _check_lag_spec(R, q, nm, agg, floor, v, sym_param, where) -> None:
             named = {text(e).split('.')[-1] for e in c0.elts}
         elif isinstance(a_.ops[0], ast.Eq):
             named = {text(c0).split('.')[-1]}
+        elif isinstance(a_.ops[0], (ast.Lt, ast.LtE, ast.Gt, ast.GtE)) and text(c0).split('.')[-1] in enum_vals and all(isinstance(v_, int) for v_ in enum_vals.values()):
+            # ordering of an IntEnum: decided on the folded member values
+            import operator as _op
+            fn_ = {ast.Lt: _op.lt, ast.LtE: _op.le, ast.Gt: _op.gt, ast.GtE: _op.ge}[type(a_.ops[0])]
+            pivot = enum_vals[text(c0).split('.')[-1]]
+            named = {k_ for k_, v_ in enum_vals.items() if fn_(v_, pivot)}
         else:
             raise Unsupported(f'{q}: filter of the variable-like symbols `{text(nis)[:80]}` not modelled')
         if not named <= members:
